@@ -195,12 +195,23 @@ class Origins:
         return None
 
     def _of_expr(self, v, d, name, seen):
+        if isinstance(v, ast.BoolOp) and isinstance(v.op, ast.Or) and len(v.values) == 2 and isinstance(v.values[0], ast.Name) \
+                and v.values[0].id in self.params:
+            # `p or E` replaces every falsy p -- including the legitimate field value 0 -- by E
+            e = try_fold(v.values[1])
+            if e == 0:
+                return [(p, o, k, d) for p, o, k, _ in self.of_name(v.values[0], seen)]
+            return [(v.values[0].id, 'or-default', '`%s` replaces the valid value 0 by %s' % (src(v), src(v.values[1])), d)]
         if isinstance(v, ast.Name):
             return [(p, o, k, d) for p, o, k, _ in self.of_name(v, seen)]
         if isinstance(v, ast.BinOp) and isinstance(v.op, (ast.Add, ast.Sub)):
             # zeros(...) + E   (constant array)
             for a, b in ((v.left, v.right), (v.right, v.left)):
                 if isinstance(a, ast.Call) and call_name(a) in ('zeros', 'zeros_like') and isinstance(v.op, ast.Add):
+                    if isinstance(b, (ast.BoolOp, ast.Name)) and not isinstance(self._default_guard(d, b), str):
+                        inner = self._of_expr(b, d, name, seen)
+                        if inner and all(x[0] is not None for x in inner):
+                            return inner          # zeros(shape) + <scalar expression of a parameter>: broadcast of that value
                     p = self._default_guard(d, b)
                     if p is not None:
                         return [(p, 0, 'default/constant branch', d)]
@@ -289,6 +300,11 @@ def check_pack_function(ctx, fa, oracle, kind):
                   construct='%s << %d' % (field, k))
         fields_seen[field] = fields_seen.get(field, 0) + 1
         # offsets
+        ordef = [o for o in os_ if o[1] == 'or-default']
+        if ordef:
+            ctx.fail('C06.PATH-OFFSET', f, base, '%s: %s' % (field, ordef[0][2]),
+                     '%s: %s: the scalar call then packs a different value than the array call with the same element' % (field, ordef[0][2]))
+            os_ = [o for o in os_ if o[1] != 'or-default']
         offs = {o[1] for o in os_ if o[1] != 'str'}
         want = PACK_OFFSET.get(field, 0)
         bad = sorted(str(o) for o in offs if o != want)
